@@ -731,6 +731,80 @@ func registerModels(P *Program) {
 		return nil
 	}
 
+	// sync.Mutex / sync.RWMutex: a holder mark plus a vector clock per mutex (a hidden channel object is the
+	// key of the race log's release/acquire). The scheduler runs a goroutine until it blocks, so a Lock on
+	// a held mutex can only mean that the holder is parked on a channel: that is not modelled (path aborted,
+	// the check ends undecided). Unlock releases, Lock acquires: accesses made under the same mutex are
+	// ordered for the race judge, accesses made outside it are not.
+	type mutexTag struct {
+		c      *ChanV
+		holder *Thread
+	}
+	mutexOf := func(ex *Exec, recv Value) *mutexTag {
+		p := recv.(*Pointer)
+		if p == nil {
+			panic(targetPanic{ex.rtError("invalid memory address or nil pointer dereference")})
+		}
+		if p.obj.tag == nil {
+			p.obj.tag = map[string]*mutexTag{}
+		}
+		tab, ok := p.obj.tag.(map[string]*mutexTag)
+		if !ok {
+			panic(abortPath{"sync.Mutex inside an object that carries another model's tag"})
+		}
+		k := fmt.Sprint(p.path)
+		m := tab[k]
+		if m == nil {
+			m = &mutexTag{c: &ChanV{id: -1}}
+			tab[k] = m
+		}
+		return m
+	}
+	lock := func(ex *Exec, th *Thread, caller *frame, fn *ssa.Function, args []Value) Value {
+		m := mutexOf(ex, args[0])
+		if m.holder != nil {
+			panic(abortPath{"Lock on a held sync.Mutex (blocking Lock not modelled)"})
+		}
+		m.holder = th
+		if ex.raceLog != nil {
+			ex.raceLog.acquire(th, m.c)
+		}
+		return nil
+	}
+	unlock := func(ex *Exec, th *Thread, caller *frame, fn *ssa.Function, args []Value) Value {
+		m := mutexOf(ex, args[0])
+		if m.holder == nil {
+			panic(abortPath{"Unlock of an unlocked sync.Mutex (fatal error in Go, not modelled)"})
+		}
+		m.holder = nil
+		if ex.raceLog != nil {
+			ex.raceLog.release(th, m.c)
+		}
+		return nil
+	}
+	ic["(*sync.Mutex).Lock"] = lock
+	ic["(*sync.Mutex).Unlock"] = unlock
+	ic["(*sync.RWMutex).Lock"] = lock
+	ic["(*sync.RWMutex).Unlock"] = unlock
+	// readers: ordered after the last writer's Unlock; a later writer is ordered after them
+	ic["(*sync.RWMutex).RLock"] = func(ex *Exec, th *Thread, caller *frame, fn *ssa.Function, args []Value) Value {
+		m := mutexOf(ex, args[0])
+		if m.holder != nil {
+			panic(abortPath{"RLock on a write-held sync.RWMutex (blocking not modelled)"})
+		}
+		if ex.raceLog != nil {
+			ex.raceLog.acquire(th, m.c)
+		}
+		return nil
+	}
+	ic["(*sync.RWMutex).RUnlock"] = func(ex *Exec, th *Thread, caller *frame, fn *ssa.Function, args []Value) Value {
+		m := mutexOf(ex, args[0])
+		if ex.raceLog != nil {
+			ex.raceLog.release(th, m.c)
+		}
+		return nil
+	}
+
 	// context: redirected to the Go-source model in the datalog overlay (vmodelWithTimeout)
 	ic["context.WithTimeout"] = func(ex *Exec, th *Thread, caller *frame, fn *ssa.Function, args []Value) Value {
 		m := ex.P.findFunc("github.com/biscuit-auth/biscuit-go/v2/datalog", "vmodelWithTimeout")
